@@ -877,3 +877,28 @@ pub fn long_float_texts() -> Vec<String> {
     }
     out
 }
+
+/// Radix literals by WIDTH far beyond where the value is already infinite (257 hex digits): digit counts around
+/// 2^10, 2^13, 2^15 and 2^16 significant bits and beyond, all digits maximal and a single leading one (a counter of
+/// dropped bits, an exponent, a shift amount kept in a narrow integer goes wrong only here).
+pub fn radix_widths() -> Vec<Value> {
+    let mut out = Vec::new();
+    for (pre, maxd, counts) in [("0x", 'f', vec![257usize, 300, 1000, 2049, 8190, 8210, 8300, 16400, 16500, 70000]), ("0o", '7', vec![400, 2731, 10930, 10950, 11000, 21900, 22000]), ("0b", '1', vec![1100, 8200, 32767, 32832, 32900, 33000, 65600, 66000])] {
+        for n in counts {
+            out.push(Value::String(format!("{}{}", pre, maxd.to_string().repeat(n))));
+            out.push(Value::String(format!("{}1{}", pre, "0".repeat(n - 1))));
+        }
+    }
+    out
+}
+
+/// Pairs of different texts that collide under the usual cheap 32-bit string hashes (found by search; the hash is
+/// named with each pair): a memo, intern table or cache that keeps only a hash of the text - or compares hashes
+/// before texts and forgets the second step - answers for one with what it learnt about the other.
+pub fn hash_colliding_numbers() -> Vec<(&'static str, &'static str, &'static str)> {
+    vec![("FNV-1a 32", "40189", "797186"), ("FNV-1a 32", "40188", "797187"), ("FNV-1 32", "479599", "662382"), ("djb2", "109799", "130100.0"), ("FxHash 32", "441603", "40169.0"), ("FxHash 32", "441602", "40169.1")]
+}
+
+pub fn hash_colliding_keys() -> Vec<(&'static str, &'static str, &'static str)> {
+    vec![("FNV-1a 32", "k32728", "k261234"), ("FNV-1 32", "k37843", "k682900"), ("Java 31", "Aa", "BB"), ("Java 31", "AaAa", "BBBB"), ("Java 31", "AaBB", "BBAa"), ("FNV-1a 32", "k32729", "k261235")]
+}
